@@ -416,6 +416,7 @@ type Obligation struct {
 	Results   []QResult
 	Status    string // discharged, failed, undecided
 	Ms        int64
+	MaxMs     int64 // slowest single query
 	Backend   string
 	FailIdx   int
 }
@@ -474,7 +475,7 @@ func solveAll(obls []*Obligation, secs, seed int, cross bool, workers int) {
 				}
 				if r.Verdict == VUnknown && !j.o.ExpectSat {
 					// one retry with a longer budget
-					r, _ = Solve(j.o.Instances[j.i], tmp, secs*3, seed, true)
+					r, _ = Solve(j.o.Instances[j.i], tmp, secs*6, seed, true)
 				}
 				j.o.Results[j.i] = r
 			}
@@ -491,6 +492,9 @@ func solveAll(obls []*Obligation, secs, seed int, cross bool, workers int) {
 			o.Status = "failed"
 			for i, r := range o.Results {
 				o.Ms += r.Ms
+				if r.Ms > o.MaxMs {
+					o.MaxMs = r.Ms
+				}
 				if r.Verdict == VSat {
 					o.Status = "discharged"
 					backs[r.Solver] = true
@@ -509,6 +513,9 @@ func solveAll(obls []*Obligation, secs, seed int, cross bool, workers int) {
 			o.FailIdx = -1
 			for i, r := range o.Results {
 				o.Ms += r.Ms
+				if r.Ms > o.MaxMs {
+					o.MaxMs = r.Ms
+				}
 				backs[r.Solver] = true
 				switch r.Verdict {
 				case VSat:
